@@ -165,7 +165,8 @@ def grammar(tier, exe_rel, bookdir):
           ("quiesce", "position fen " + FEN_QUIESCE, "mid")]
     deep = ["go depth %d" % d for d in (39, 40, 41, 42, 60, 100, 1000)]
     G_by_class = {
-        "trivial": ["go depth 1"] + deep + ["go movetime 50", "go infinite", "go"],
+        "trivial": ["go depth 1"] + deep + ["go movetime 50", "go infinite", "go", "go depth 64 movetime 4000", "go depth 41 wtime 600000 btime 600000",
+                    "go depth 1000 movetime 2000"],
         "long": ["go depth 1", "go depth 2", "go depth 4", "go movetime 50", "go infinite"],
         "big": ["go depth 1", "go depth 2", "go movetime 50", "go infinite", "SEARCHMOVES"],
         "mid": ["go depth 1", "go depth 3", "go depth 6", "go movetime 50", "go infinite", "SEARCHMOVES", "go"],
